@@ -160,11 +160,19 @@ Definition ns_events (evs : list (hop * hout)) : list (nsop * nsout) :=
   flat_map (fun ev => match ev with (HNs o, HONs r) => [(o, r)] | _ => [] end) evs.
 
 (** a CURIE that compaction handed out earlier can always be expanded later *)
+Definition curie_prefix (c : str) : option str :=
+  match split_first c_colon c with Some (p, _) => Some p | None => None end.
+(** [known] = the prefixes handed out so far in this history (by compaction or assertion): a CURIE with such
+    a prefix - e.g. "ns4:", the CURIE of a URI that is itself a namespace - must expand *)
 Fixpoint expand_known_ok (known : list str) (evs : list (hop * hout)) : bool :=
   match evs with
   | [] => true
-  | (HNs (NCompact _), HONs (OStr c)) :: evs' => expand_known_ok (c :: known) evs'
-  | (HNs (NExpand c), HONs OErr) :: evs' => negb (existsb (str_eqb c) known) && expand_known_ok known evs'
+  | (HNs (NCompact _), HONs (OStr c)) :: evs' =>
+    expand_known_ok (match curie_prefix c with Some p => p :: known | None => known end) evs'
+  | (HNs (NAssert _), HONs (OStr p)) :: evs' => expand_known_ok (p :: known) evs'
+  | (HNs (NExpand c), HONs OErr) :: evs' =>
+    negb (match curie_prefix c with Some p => existsb (str_eqb p) known | None => false end)
+    && expand_known_ok known evs'
   | _ :: evs' => expand_known_ok known evs'
   end.
 
